@@ -161,7 +161,8 @@ def cargo_build():
                 shutil.rmtree(alt)
             shutil.copytree(hd, alt, ignore=shutil.ignore_patterns("target"))
             ct = os.path.join(alt, "Cargo.toml")
-            open(ct, "w").write(open(ct).read().replace('path = "/repo"', 'path = "%s"' % repo))
+            txt = open(ct).read().replace('path = "/repo"', 'path = "%s"' % repo)
+            open(ct, "w").write(txt)
             hd = alt
             target = os.path.join(CACHE, "target-" + tag)
             VH = os.path.join(target, "debug", "vh")
